@@ -1,4 +1,4 @@
-import MindsVerif.Lemmas.WalkLift
+import MindsVerif.Lemmas.WalkLiftP
 import MindsVerif.Lemmas.WalkSame
 import MindsVerif.Model.Params
 /-! T13.1 (replacement): on an `okTree`, a visitor that answers `r` exactly for the node(s) with identity
@@ -8,18 +8,40 @@ namespace MindsVerif.Walk
 open MindsVerif.Params
 
 mutual
-/-- specification: replace the node `x` (searched through the required slots only) by `r` -/
+/-- specification: replace the node `x` (searched through the required slots, looking through containers) by `r` -/
 def subst (σ : Schema) (x : Nat) (r : Node) : Node → Node
   | .mk c s t ks => if t = x then r.setSlot s else .mk c s t (substL σ x r (σ.row c) ks)
 def substL (σ : Schema) (x : Nat) (r : Node) (row : ClassRow) : List Node → List Node
   | [] => []
-  | k :: ks => (if (row.kind k.slot).required then subst σ x r k else k) :: substL σ x r row ks
+  | .mk c s t gs :: ks =>
+    (if (row.kind s).required then subst σ x r (.mk c s t gs)
+     else if row.kind s == .container then .mk c s t (substL σ x r (σ.row c) gs)
+     else .mk c s t gs) :: substL σ x r row ks
 end
+
+/-- what `substL` does to one child -/
+def substKid (σ : Schema) (x : Nat) (r : Node) (row : ClassRow) (k : Node) : Node :=
+  if (row.kind k.slot).required then subst σ x r k
+  else if row.kind k.slot == .container then k.setKids (substL σ x r (σ.row k.cls) k.kids) else k
+
+theorem substL_eq_map (σ : Schema) (x : Nat) (r : Node) (row : ClassRow) : ∀ ks,
+    substL σ x r row ks = ks.map (substKid σ x r row)
+  | [] => by simp [substL]
+  | .mk c s t gs :: ks => by
+    rw [substL, List.map_cons, substL_eq_map σ x r row ks]; rfl
 
 def GoodRep (σ : Schema) (x : Nat) (r : Node) (k : Node) (f : Tr Unit) : Prop :=
   okTree σ k = true → ∀ a b pq st,
     (k.tag = x → (f a b pq st).repl = some r) ∧
     (k.tag ≠ x → (f a b pq st).repl = none ∧ (f a b pq st).self = subst σ x r k)
+
+def GoodRepVia (σ : Schema) (x : Nat) (r : Node) (k : Node) (g : Nat → Tr Unit) : Prop :=
+  ∀ (e : Entry) q, e.via = some q → contCond (σ.row k.cls) e (slotsOf k.kids) = true →
+    okKids σ (σ.row k.cls) k.kids = true →
+    ∀ pq st, (g q e.isTable e.isTarget pq st).self = k.setKids (substL σ x r (σ.row k.cls) k.kids)
+
+abbrev GR (σ : Schema) (x : Nat) (r : Node) (it : Item Unit) (k : Node) : Prop :=
+  it.node = k ∧ GoodRep σ x r k it.tr ∧ GoodRepVia σ x r k it.via
 
 /-- one pass over the children: positions in slot `s` get `f`, the others keep what is there -/
 def upd (s : Nat) (f : Node → Node) : List Node → List Node → List Node
@@ -53,90 +75,122 @@ theorem updAll_self (ss : List Nat) (f : Node → Node) : ∀ ks,
 
 theorem tag_setSlot (r : Node) (s : Nat) : (r.setSlot s).tag = r.tag := by cases r; rfl
 
-theorem runEntry_rep (σ : Schema) (x : Nat) (r : Node) (e : Entry) (pq' : Nat) :
-    ∀ (its : List (Item Unit)) ks, All2 (fun it k => it.node = k ∧ GoodRep σ x r k it.tr ∧ True) its ks →
-      okTreeL σ ks = true → ((e.via = none ∧ e.repl = .same) ∨ ∀ k ∈ ks, k.slot ≠ e.slot) → ∀ cur st, cur.length = ks.length →
-      (runEntry e pq' its cur st).1 = upd e.slot (subst σ x r) ks cur := by
+/-- the condition on a child `k` in the slot of the entry `e` of the row `row` -/
+def KidR (σ : Schema) (row : ClassRow) (e : Entry) (k : Node) : Prop :=
+  e.repl = .same ∧ (row.kind k.slot).required = e.via.isNone ∧ (row.kind k.slot).relevant = true ∧ KidQ σ e k
+
+theorem KidR.tail {σ : Schema} {row : ClassRow} {e : Entry} {k : Node} {ks : List Node}
+    (h : ∀ k' ∈ k :: ks, k'.slot = e.slot → KidR σ row e k') : ∀ k' ∈ ks, k'.slot = e.slot → KidR σ row e k' :=
+  fun k' hk' => h k' (List.mem_cons_of_mem _ hk')
+
+theorem runEntry_rep (σ : Schema) (x : Nat) (r : Node) (row : ClassRow) (e : Entry) (pq' : Nat) :
+    ∀ (its : List (Item Unit)) ks, All2 (GR σ x r) its ks →
+      (∀ k ∈ ks, k.slot = e.slot → KidR σ row e k) → ∀ cur st, cur.length = ks.length →
+      (runEntry e pq' its cur st).1 = upd e.slot (substKid σ x r row) ks cur := by
   intro its ks h
   induction h with
-  | nil => intro _ _ cur st _; cases cur <;> simp [runEntry, upd]
+  | nil => intro _ cur st _; cases cur <;> simp [runEntry, upd]
   | @cons it k its ks hk _ ih =>
-    intro hok hrep cur st hl
+    intro hK cur st hl
     cases cur with
     | nil => simp at hl
     | cons c cs =>
       have hl' : cs.length = ks.length := by simpa using hl
-      simp only [okTreeL, Bool.and_eq_true] at hok
-      obtain ⟨hn, hg, _⟩ := hk
-      have hrep' : (e.via = none ∧ e.repl = .same) ∨ ∀ k' ∈ ks, k'.slot ≠ e.slot := by
-        cases hrep with
-        | inl h => exact .inl h
-        | inr h => exact .inr (fun k' hk' => h k' (List.mem_cons_of_mem _ hk'))
+      obtain ⟨hn, hg, hv⟩ := hk
       by_cases hs : it.node.slot = e.slot
       · have hs' : k.slot = e.slot := hn ▸ hs
-        have hboth : e.via = none ∧ e.repl = .same := by
-          cases hrep with
-          | inl h => exact h
-          | inr h => exact absurd hs' (h k (List.mem_cons_self ..))
-        have he := hboth.1
-        have hsame := hboth.2
-        have g := hg hok.1 e.isTable e.isTarget pq' st
-        have rr := ih hok.2 hrep' cs (it.tr e.isTable e.isTarget pq' st).st hl'
-        simp only [runEntry, hs, if_true, he, upd, hs', rr]
-        congr 1
-        by_cases hx : k.tag = x
-        · have g1 := g.1 hx
-          rw [hn]
-          cases k with
-          | mk c0 s0 t0 ks0 =>
-            simp only [Node.tag] at hx
-            simp [applyRepl, g1, hsame, he, subst, hx, Node.slot]
-        · have g2 := g.2 hx
-          simp [applyRepl, g2.1, g2.2]
+        obtain ⟨hsame, hreq, hrel, hq⟩ := hK k (List.mem_cons_self ..) hs'
+        unfold KidQ at hq
+        cases hvia : e.via with
+        | none =>
+          rw [hvia] at hq hreq
+          have hreq' : (row.kind k.slot).required = true := hreq
+          have g := hg hq e.isTable e.isTarget pq' st
+          have rr := ih (KidR.tail hK) cs (it.tr e.isTable e.isTarget pq' st).st hl'
+          simp only [runEntry, hs, if_true, hvia, upd, hs', rr]
+          congr 1
+          simp only [substKid, hreq', if_true]
+          by_cases hx : k.tag = x
+          · have g1 := g.1 hx
+            rw [hn]
+            cases k with
+            | mk c0 s0 t0 ks0 =>
+              simp only [Node.tag] at hx
+              simp [applyRepl, g1, hsame, hvia, subst, hx, Node.slot]
+          · have g2 := g.2 hx
+            simp [applyRepl, g2.1, g2.2]
+        | some q =>
+          rw [hvia] at hq hreq
+          have hreq' : (row.kind k.slot).required = false := hreq
+          have hc : (row.kind k.slot == Kind.container) = true := by
+            simpa [Kind.relevant, hreq'] using hrel
+          have g := hv e q hvia hq.1 hq.2 pq' st
+          have rr := ih (KidR.tail hK) cs (it.via q e.isTable e.isTarget pq' st).st hl'
+          simp only [runEntry, hs, if_true, hvia, upd, hs', rr]
+          congr 1
+          simp only [substKid, hreq', hc, Bool.false_eq_true, if_false, if_true]
+          rw [← g, hn]
+          cases ho : (it.via q e.isTable e.isTarget pq' st).repl <;> simp [applyRepl, ho, hsame, hvia]
       · have hs' : k.slot ≠ e.slot := hn ▸ hs
-        have rr := ih hok.2 hrep' cs st hl'
+        have rr := ih (KidR.tail hK) cs st hl'
         simp only [runEntry, hs, if_false, upd, hs', rr]
 
-theorem runRow_rep (σ : Schema) (x : Nat) (r : Node) (c pq : Nat)
-    (its : List (Item Unit)) (ks : List Node)
-    (h : All2 (fun it k => it.node = k ∧ GoodRep σ x r k it.tr ∧ True) its ks) (hok : okTreeL σ ks = true) :
+theorem runRow_rep (σ : Schema) (x : Nat) (r : Node) (row : ClassRow) (c pq : Nat)
+    (its : List (Item Unit)) (ks : List Node) (h : All2 (GR σ x r) its ks) :
     ∀ (es : List Entry), es.all (cleanFor (slotsOf ks)) = true →
-      (∀ e ∈ es, (e.via = none ∧ e.repl = .same) ∨ ∀ k ∈ ks, k.slot ≠ e.slot) → ∀ cur st, cur.length = ks.length →
-      (runRow (cbAt x r) c pq es its cur st).1 = updAll (es.map (·.slot)) (subst σ x r) ks cur := by
+      (∀ e ∈ es, ∀ k ∈ ks, k.slot = e.slot → KidR σ row e k) → ∀ cur st, cur.length = ks.length →
+      (runRow (cbAt x r) c pq es its cur st).1 = updAll (es.map (·.slot)) (substKid σ x r row) ks cur := by
   intro es
   induction es with
   | nil => intro _ _ cur st _; simp [runRow, updAll_nil]
   | cons e es ih =>
-    intro hc hrep cur st hl
-    simp only [List.all_cons, Bool.and_eq_true, cleanFor] at hc
-    obtain ⟨⟨hv, hn⟩, hrest⟩ := hc
-    have hcond : (e.noneVisit && !hasSlot its e.slot) = false := by
-      rw [hasSlot_eq its ks _ (fun _ _ hh => hh.1) h]
-      cases hnv : e.noneVisit <;> simp [hnv] at hn ⊢
-      exact hn
-    have r1 := runEntry_rep σ x r e (e.pqFor c pq) its ks h hok (hrep e (List.mem_cons_self ..)) cur st hl
+    intro hc hK cur st hl
+    simp only [List.all_cons, Bool.and_eq_true] at hc
+    have hcond := noNone_cond its ks _ (fun _ _ hh => hh.1) h e hc.1
+    have r1 := runEntry_rep σ x r row e (e.pqFor c pq) its ks h (hK e (List.mem_cons_self ..)) cur st hl
     have hlen : (runEntry e (e.pqFor c pq) its cur st).1.length = ks.length := by
       rw [runEntry_length, hl]
-    have r2 := ih hrest (fun e' he' => hrep e' (List.mem_cons_of_mem _ he'))
+    have r2 := ih hc.2 (fun e' he' => hK e' (List.mem_cons_of_mem _ he'))
       (runEntry e (e.pqFor c pq) its cur st).1 (runEntry e (e.pqFor c pq) its cur st).2.1 hlen
     simp only [runRow, hcond, Bool.false_eq_true, if_false, List.map_cons]
     rw [r2, r1, updAll_upd]
 
-theorem substL_eq_map (σ : Schema) (x : Nat) (r : Node) (row : ClassRow) : ∀ ks,
-    substL σ x r row ks = ks.map (fun k => if (row.kind k.slot).required then subst σ x r k else k)
-  | [] => by simp [substL]
-  | k :: ks => by simp [substL, substL_eq_map σ x r row ks]
+/-- under `nodeOK`, for an entry whose slot is occupied: plain traversal iff the slot is required, and the slot is relevant -/
+theorem entry_kind (r : ClassRow) (present : List Nat) (h : nodeOK r present = true) (e : Entry) (he : e ∈ r.walk)
+    (hp : present.contains e.slot = true) :
+    e.repl = .same ∧ (r.kind e.slot).required = e.via.isNone ∧ (r.kind e.slot).relevant = true := by
+  simp only [nodeOK, Bool.and_eq_true] at h
+  obtain ⟨⟨⟨hall, heq⟩, _⟩, _⟩ := h
+  have heq' := eq_of_beq heq
+  have hmem : (e.slot, e.via.isNone, e.isTable, e.isTarget) ∈
+      (r.walk.filter (fun e => present.contains e.slot)).map (fun e => (e.slot, e.via.isNone, e.isTable, e.isTarget)) :=
+    List.mem_map.mpr ⟨e, List.mem_filter.mpr ⟨he, hp⟩, rfl⟩
+  rw [heq'] at hmem
+  obtain ⟨p, hpm, hpe⟩ := List.mem_map.mp hmem
+  have hp2 := (List.mem_filter.mp hpm).2
+  simp only [Bool.and_eq_true] at hp2
+  have hps : p = e.slot := by injection hpe
+  have hreq : (r.kind e.slot).required = e.via.isNone := by
+    injection hpe with _ h2; injection h2 with h2 _; rw [← hps]; exact h2
+  have hsame : e.repl = .same := by
+    have := (List.all_eq_true.mp hall) e he
+    simp only [Bool.and_eq_true, Bool.or_eq_true, Bool.not_eq_true', hp] at this
+    cases this.2 with
+    | inl h => cases h
+    | inr h => exact eq_of_beq h
+  exact ⟨hsame, hreq, by rw [← hps]; exact hp2.1⟩
 
-/-- under `nodeOK` an occupied slot is traversed iff its kind is required -/
+/-- under `nodeOK` an occupied slot is traversed iff its kind is relevant -/
 theorem nodeOK_mem (r : ClassRow) (present : List Nat) (h : nodeOK r present = true) :
-    ∀ p ∈ present, (r.walk.map (·.slot)).contains p = (r.kind p).required := by
+    ∀ p ∈ present, (r.walk.map (·.slot)).contains p = (r.kind p).relevant := by
   intro p hp
+  have hfull := h
   simp only [nodeOK, Bool.and_eq_true] at h
   obtain ⟨⟨⟨_, heq⟩, hpr⟩, _⟩ := h
   have heq' := congrArg (List.map (·.1)) (eq_of_beq heq)
   simp only [List.map_map] at heq'
-  have e1 : ((fun (q : Nat × Bool × Bool) => q.1) ∘ fun (e : Entry) => (e.slot, e.isTable, e.isTarget)) = (·.slot) := rfl
-  have e2 : ((fun (q : Nat × Bool × Bool) => q.1) ∘ fun (p : Nat) => (p, r.kind p == Kind.table, r.kind p == Kind.target)) = id := rfl
+  have e1 : ((fun (q : Nat × Bool × Bool × Bool) => q.1) ∘ fun (e : Entry) => (e.slot, e.via.isNone, e.isTable, e.isTarget)) = (·.slot) := rfl
+  have e2 : ((fun (q : Nat × Bool × Bool × Bool) => q.1) ∘ fun (p : Nat) => (p, (r.kind p).required, r.kind p == Kind.table, r.kind p == Kind.target)) = id := rfl
   rw [e1, e2, List.map_id] at heq'
   have hpc : present.contains p = true := by simpa using hp
   have hprp := (List.all_eq_true.mp hpr) p hp
@@ -145,64 +199,134 @@ theorem nodeOK_mem (r : ClassRow) (present : List Nat) (h : nodeOK r present = t
   · intro hw
     have hw' : p ∈ r.walk.map (·.slot) := by simpa using hw
     obtain ⟨e, he, hep⟩ := List.mem_map.mp hw'
-    have : p ∈ (r.walk.filter (fun e => present.contains e.slot)).map (·.slot) :=
-      List.mem_map.mpr ⟨e, List.mem_filter.mpr ⟨he, by simpa [hep] using hpc⟩, hep⟩
-    rw [heq'] at this
-    have := (List.mem_filter.mp this).2
-    simp only [Bool.and_eq_true] at this
-    exact this.1
+    have := (entry_kind r present hfull e he (by rw [hep]; exact hpc)).2.2
+    rw [hep] at this; exact this
   · intro hreq
     have hin : p ∈ r.print := by
       simp only [hreq, Bool.not_true, Bool.false_or] at hprp
       simpa using hprp
-    have : p ∈ r.print.filter (fun p => (r.kind p).required && present.contains p) :=
+    have : p ∈ r.print.filter (fun p => (r.kind p).relevant && present.contains p) :=
       List.mem_filter.mpr ⟨hin, by simp [hreq, hp]⟩
     rw [← heq'] at this
     obtain ⟨e, he, hep⟩ := List.mem_map.mp this
     have : p ∈ r.walk.map (·.slot) := List.mem_map.mpr ⟨e, (List.mem_filter.mp he).1, hep⟩
     simpa using this
 
+/-- looking through a container: exactly the child in slot `q` is rewritten -/
+theorem viaRun_rep (σ : Schema) (x : Nat) (r : Node) (q : Nat) (a b : Bool) (pq : Nat) :
+    ∀ (its : List (Item Unit)) gs, All2 (GR σ x r) its gs → (slotsOf gs).filter (· == q) = [q] →
+      (∀ g ∈ gs, g.slot = q → okTree σ g = true) → ∀ st,
+      (viaRun q a b pq its gs st).2.1 = gs.map (fun g => if g.slot = q then subst σ x r g else g) := by
+  intro its gs h
+  induction h with
+  | nil => intro hc; simp [slotsOf] at hc
+  | @cons it k its gs hk _ ih =>
+    intro hc hok st
+    obtain ⟨hn, hg, _⟩ := hk
+    simp only [slotsOf, List.filter_cons] at hc
+    by_cases hs : it.node.slot = q
+    · have hs' : k.slot = q := hn ▸ hs
+      have hrest : (slotsOf gs).filter (· == q) = [] := by simpa [hs'] using hc
+      have habs : ∀ g ∈ gs, g.slot ≠ q := by
+        intro g hg hgs
+        have := mem_slotsOf hg
+        rw [hgs] at this
+        have hcq := filter_eq_nil_absent _ _ hrest
+        have : (slotsOf gs).contains q = true := by simpa using this
+        rw [hcq] at this; cases this
+      have g := hg (hok k (List.mem_cons_self ..) hs') a b pq st
+      simp only [viaRun, hs, if_true, List.map_cons, hs']
+      congr 1
+      · by_cases hx : k.tag = x
+        · have g1 := g.1 hx
+          cases k with
+          | mk c0 s0 t0 ks0 =>
+            simp only [Node.tag] at hx
+            simp only [Node.slot] at hs'
+            subst hs'
+            simp [g1, subst, hx]
+        · have g2 := g.2 hx
+          simp [g2.1, g2.2]
+      · symm
+        rw [List.map_congr_left (g := id)]
+        · simp
+        · intro g' hg'; simp [habs g' hg']
+    · have hs' : k.slot ≠ q := hn ▸ hs
+      have hc' : (slotsOf gs).filter (· == q) = [q] := by simpa [hs'] using hc
+      have rr := ih hc' (fun g hg' => hok g (List.mem_cons_of_mem _ hg')) st
+      simp only [viaRun, hs, if_false, List.map_cons, hs', rr]
+
 /-- T13.1 (replacement) for every traversal -/
 theorem goodrep_all (σ : Schema) (x : Nat) (r : Node) : ∀ t, GoodRep σ x r t (tr σ (cbAt x r) t) := by
   intro t
-  refine (tr_ind σ (cbAt x r) (GoodRep σ x r) (fun _ _ => True) ?_ t).1
+  refine (tr_ind σ (cbAt x r) (GoodRep σ x r) (GoodRepVia σ x r) ?_ t).1
   intro c s t ks its h
-  refine ⟨?_, trivial⟩
-  intro hok a b pq st
-  simp only [okTree, Bool.and_eq_true] at hok
-  have hno := hok.1
-  simp only [nodeOK, Bool.and_eq_true] at hno
-  obtain ⟨⟨⟨hall, _⟩, _⟩, _⟩ := hno
-  have hrep : ∀ e ∈ (σ.row c).walk, (e.via = none ∧ e.repl = .same) ∨ ∀ k ∈ ks, k.slot ≠ e.slot := by
-    intro e he
-    have := (List.all_eq_true.mp hall) e he
-    simp only [Bool.and_eq_true, Bool.or_eq_true, Bool.not_eq_true'] at this
-    cases this.2 with
-    | inl hn =>
-      right
-      intro k hk hs
-      have := mem_slotsOf hk
-      rw [hs] at this
-      have hc : (slotsOf ks).contains e.slot = true := by simpa using this
-      rw [hc] at hn; cases hn
-    | inr hs =>
-      left
-      refine ⟨?_, eq_of_beq hs.2⟩
-      cases hvia : e.via <;> simp [hvia] at hs ⊢
-  have hrow := runRow_rep σ x r c pq its ks h hok.2 (σ.row c).walk (nodeOK_clean _ _ hok.1) hrep ks st rfl
   refine ⟨?_, ?_⟩
-  · intro hx
-    simp only [Node.tag] at hx
-    simp [step, cbAt, Node.tag, hx]
-  · intro hx
-    simp only [Node.tag] at hx
-    simp only [step, cbAt, Node.tag, hx, if_false]
-    refine ⟨trivial, ?_⟩
-    rw [hrow, updAll_self]
-    simp only [subst, hx, if_false, substL_eq_map]
+  · intro hok a b pq st
+    simp only [okTree, Bool.and_eq_true] at hok
+    have hK : ∀ e ∈ (σ.row c).walk, ∀ k ∈ ks, k.slot = e.slot → KidR σ (σ.row c) e k := by
+      intro e he k hk hs
+      have hp : (slotsOf ks).contains e.slot = true := by
+        have := mem_slotsOf hk; rw [hs] at this; simpa using this
+      have ek := entry_kind _ _ hok.1 e he hp
+      exact ⟨ek.1, by rw [hs]; exact ek.2.1, by rw [hs]; exact ek.2.2, kidQ_of_ok σ _ ks hok.1 hok.2 e he k hk hs⟩
+    have hrow := runRow_rep σ x r (σ.row c) c pq its ks h (σ.row c).walk (nodeOK_clean _ _ hok.1) hK ks st rfl
+    refine ⟨?_, ?_⟩
+    · intro hx
+      simp only [Node.tag] at hx
+      simp [step, cbAt, Node.tag, hx]
+    · intro hx
+      simp only [Node.tag] at hx
+      simp only [step, cbAt, Node.tag, hx, if_false]
+      refine ⟨trivial, ?_⟩
+      rw [hrow, updAll_self]
+      simp only [subst, hx, if_false, substL_eq_map]
+      congr 1
+      apply List.map_congr_left
+      intro k hk
+      rw [nodeOK_mem _ _ hok.1 k.slot (mem_slotsOf hk)]
+      cases hrel : (σ.row c).kind k.slot |>.relevant with
+      | true => simp
+      | false =>
+        have h1 : ((σ.row c).kind k.slot).required = false := by
+          simp only [Kind.relevant, Bool.or_eq_false_iff] at hrel; exact hrel.1
+        have h2 : ((σ.row c).kind k.slot == Kind.container) = false := by
+          simp only [Kind.relevant, Bool.or_eq_false_iff] at hrel; exact hrel.2
+        simp [substKid, h1, h2]
+  · intro e q hvia hcc hkk pq st
+    simp only [Node.cls, Node.kids] at hcc hkk
+    simp only [contCond, hvia, Bool.and_eq_true] at hcc
+    obtain ⟨⟨⟨⟨⟨c1, c2⟩, _⟩, _⟩, c5⟩, c6⟩ := hcc
+    have hq : (slotsOf ks).filter (· == q) = [q] := eq_of_beq c5
+    have hokq : ∀ g ∈ ks, g.slot = q → okTree σ g = true := by
+      intro g hg hs
+      exact (okKids_mem σ (σ.row c) ks hkk g hg).1 (by rw [hs]; exact c2)
+    have hv := viaRun_rep σ x r q e.isTable e.isTarget pq its ks h hq hokq st
+    simp only [viaStep, hv, Node.setKids, Node.cls, Node.kids, substL_eq_map]
     congr 1
     apply List.map_congr_left
-    intro k hk
-    rw [nodeOK_mem _ _ hok.1 k.slot (mem_slotsOf hk)]
+    intro g hg
+    by_cases hs : g.slot = q
+    · simp [hs, substKid, c2]
+    · have hnr : ((σ.row c).kind g.slot).relevant = false := by
+        cases hrel : ((σ.row c).kind g.slot).relevant with
+        | false => rfl
+        | true =>
+          exfalso
+          have hpres : (slotsOf ks).contains g.slot = true := by simpa using mem_slotsOf hg
+          have hprinted := (List.all_eq_true.mp c6) g.slot (mem_slotsOf hg)
+          simp only [hrel, Bool.not_true, Bool.false_or] at hprinted
+          have : g.slot ∈ (σ.row c).print.filter (fun p => ((σ.row c).kind p).relevant && (slotsOf ks).contains p) :=
+            List.mem_filter.mpr ⟨by simpa using hprinted, by
+              have hp' : g.slot ∈ slotsOf ks := mem_slotsOf hg
+              simp [hrel, hp']⟩
+          rw [eq_of_beq c1] at this
+          simp at this
+          exact hs this
+      have h1 : ((σ.row c).kind g.slot).required = false := by
+        simp only [Kind.relevant, Bool.or_eq_false_iff] at hnr; exact hnr.1
+      have h2 : ((σ.row c).kind g.slot == Kind.container) = false := by
+        simp only [Kind.relevant, Bool.or_eq_false_iff] at hnr; exact hnr.2
+      simp [hs, substKid, h1, h2]
 
 end MindsVerif.Walk
